@@ -962,7 +962,10 @@ func (s *sess) doSign(r *hx.RNG, spec csrSpec, ag authzGen, tags []string) bool 
 		sig := "ca:issued-uri-is-not-a-spiffe-identity"
 		if len(reqURIs) == 1 {
 			if rid, e2 := connect.ParseCertURI(reqURIs[0]); e2 == nil {
-				if _, isAgent := rid.(*connect.SpiffeIDAgent); isAgent && reqURIs[0].String() != leaf.URIs[0].String() {
+				// the one recorded shape: an agent id outside the trust domain whose decoded
+				// datacenter or node contains '/' is re-rendered unescaped
+				if a, isAgent := rid.(*connect.SpiffeIDAgent); isAgent && a.Host != td &&
+					(strings.Contains(a.Datacenter, "/") || strings.Contains(a.Agent, "/")) {
 					sig = "ca:agent-rewritten-uri-is-not-a-spiffe-identity"
 				}
 			}
